@@ -1,6 +1,40 @@
 ------------------------------- MODULE Gen_C10 -------------------------------
-EXTENDS RobustTraffic, Json, CSV
-(* feature pairs are crossed with at most one mutation, single features with up to MaxMut *)
-Emit == (Cardinality(feats) <= 1 \/ Len(muts) <= 1) =>
+EXTENDS RobustTraffic, SequencesExt, Json, CSV
+(***************************************************************************)
+(* F for the named universe.  The product: feature sets of size <= MaxFeat *)
+(* x mutation sequences of length <= MaxMut (feature pairs with at most    *)
+(* one mutation) x side x MultiError.                                      *)
+(*   BASE cases - at most one feature and at most one mutation - are       *)
+(* always emitted (they are the quick tier).                               *)
+(*   PAIR-LEVEL cases (two features, or two mutations) are emitted in a    *)
+(* seeded 1/Slice slice: a linear congruence over the positions of the     *)
+(* atoms, so that every class of the slice is equally populated and every  *)
+(* feature pair / mutation pair keeps cases in it.                         *)
+(*   HEAVY pair-level cases are emitted in a 1/(Slice*HeavySlice) slice:   *)
+(* (a) the feature recursive_schema_default - every case that reaches it   *)
+(* dies the same way (open finding F-C10-9: a process death and restart    *)
+(* each); (b) a 3000-deep body in multi-error mode (seconds per validation,*)
+(* quadratic error accumulation).                                          *)
+(* Slice = HeavySlice = 1 gives the full product.                          *)
+(***************************************************************************)
+CONSTANTS Slice, HeavySlice, Seed
+
+FSeq == SetToSeq(DocFeatures)
+MSeq == SetToSeq(ReqMutations \cup RespMutations)
+FIdx == [f \in DocFeatures |-> CHOOSE i \in DOMAIN FSeq : FSeq[i] = f]
+MIdx == [m \in ReqMutations \cup RespMutations |-> CHOOSE i \in DOMAIN MSeq : MSeq[i] = m]
+
+DeepMuts == {"body_deep_nesting", "resp_body_deep"}
+Base == Cardinality(feats) <= 1 /\ Len(muts) <= 1
+Heavy == "recursive_schema_default" \in feats \/ (multi /\ \E i \in DOMAIN muts : muts[i] \in DeepMuts)
+Hash == FoldSet(LAMBDA f, acc : acc + 11 * FIdx[f], 0, feats)
+        + (IF Len(muts) >= 1 THEN MIdx[muts[1]] ELSE 0) + (IF Len(muts) >= 2 THEN 5 * MIdx[muts[2]] ELSE 0)
+        + (IF multi THEN 3 ELSE 0) + (IF side = "request" THEN 0 ELSE 1) + Seed
+Selected == Base \/ (Hash % (IF Heavy THEN Slice * HeavySlice ELSE Slice) = 0)
+
+(* feature pairs are crossed with at most one mutation, single features with up to MaxMut: the generator does not walk further *)
+GNext == (Cardinality(feats) <= 1 \/ Len(muts) = 0) /\ Next
+GSpec == Init /\ [][GNext]_vars
+Emit == Selected =>
            CSVWrite("%1$s", <<ToJson([feats |-> feats, muts |-> muts, side |-> side, multi |-> multi])>>, "cases.ndjson")
 =============================================================================
